@@ -47,3 +47,25 @@ pub proof fn lemma_label_ext(a: NodeLabel, b: NodeLabel)
     }
     assert(a.label_val =~= b.label_val);
 }
+
+// the length of the longest common prefix, as the property states it
+pub open spec fn is_lcplen(a: NodeLabel, b: NodeLabel, k: int) -> bool {
+    0 <= k <= a.label_len && k <= b.label_len && agree(a, b, k)
+    && (k < a.label_len && k < b.label_len ==> bit(a, k) != bit(b, k))
+}
+// r is the prefix of l of length n (meaning of get_prefix for n <= len)
+pub open spec fn is_prefix_n(r: NodeLabel, l: NodeLabel, n: int) -> bool {
+    if n >= 256 { r == l } else { r.label_len == n && canon(r) && agree(r, l, n) }
+}
+
+
+// all bits of a zero byte are zero
+pub proof fn lemma_zero_byte()
+    ensures forall|r: int| 0 <= r < 8 ==> !#[trigger] byte_bit(0u8, r)
+{
+    assert((0u8 >> 7u8) & 1u8 == 0u8 && (0u8 >> 6u8) & 1u8 == 0u8 && (0u8 >> 5u8) & 1u8 == 0u8 && (0u8 >> 4u8) & 1u8 == 0u8
+        && (0u8 >> 3u8) & 1u8 == 0u8 && (0u8 >> 2u8) & 1u8 == 0u8 && (0u8 >> 1u8) & 1u8 == 0u8 && (0u8 >> 0u8) & 1u8 == 0u8) by(bit_vector);
+    assert forall|r: int| 0 <= r < 8 implies !#[trigger] byte_bit(0u8, r) by {
+        if r == 0 {} else if r == 1 {} else if r == 2 {} else if r == 3 {} else if r == 4 {} else if r == 5 {} else if r == 6 {} else {}
+    }
+}
